@@ -124,6 +124,9 @@ package main
 //@   trace[C09,listens-on-configured-address] loop 4 each main.(*listenerSet).ListenStream satisfies $arg1 == lnConfig.Address
 //@   trace[C09,listens-on-configured-address-udp] loop 4 each main.(*listenerSet).ListenPacket satisfies $arg1 == lnConfig.Address
 //@   trace[C09,one-listener-per-entry] loop 4 atmost 1 main.(*listenerSet).Listen*
+//@   trace[C10,listen-failure-fails-the-start] each main.(*listenerSet).Listen* satisfies $res1 != nil ==> result != nil
+//@   trace[C10,bad-key-fails-the-start] each shadowsocks.NewEncryptionKey satisfies $res1 != nil ==> result != nil
+//@   trace[C10,bad-key-list-fails-the-start] each main.newCipherListFromConfig satisfies $res1 != nil ==> result != nil
 //@   trace[C07,one-cache-for-all-services] each service.WithReplayCache satisfies $arg0 == &s.replayCache
 //@   trace[C07,every-service-gets-the-cache] each service.NewShadowsocksService satisfies evcount("service.WithReplayCache") >= 1
 //@   acquires-level 5
